@@ -169,6 +169,29 @@ def cleanup_network(network: BooleanNetwork) -> BooleanNetwork:
             )
             network.set_update_function(v, network.get_variable_name(v))
 
+    # Keep the variables in sorted order. This is the order that every text format
+    # (.bnet, .aeon, .sbml) produces, but a network built through the API can declare
+    # its variables in any order. Pickling a succession diagram goes through .aeon text,
+    # so without this, a reloaded diagram would see another variable order than the
+    # original one (different node keys, and different order-dependent heuristics).
+    names = network.variable_names()
+    if names != sorted(names):
+        ordered = BooleanNetwork(sorted(names))
+        for reg in network.regulations():
+            ordered.add_regulation(
+                {
+                    "source": network.get_variable_name(reg["source"]),
+                    "target": network.get_variable_name(reg["target"]),
+                    "essential": reg["essential"],
+                    "sign": reg["sign"],
+                }
+            )
+        for name in names:
+            update = network.get_update_function(name)
+            if update is not None:
+                ordered.set_update_function(name, str(update))
+        network = ordered
+
     return network.infer_valid_graph()
 
 
